@@ -8,10 +8,10 @@ TB_APP = "Go toolchain; the harness' smchain driver (real app.ShutterApp, harnes
 
 CHECKS = {
  "C09": dict(cat="exploration", tech="differential replicas: byte-comparison of marshalled ABCI responses and canonical state across in-process replicas and across OS processes",
-   text="Real app.ShutterApp replicas execute identical generated histories (random walks incl. walks targeted at vote ties / validator churn, dedup-BFS over a 19-symbol alphabet); every response (Log/Info excluded) and the canonical state must be byte-identical per call. Holds on the histories executed; map-order dependence is detected probabilistically (2^-(R-1) miss per occurrence, thousands of occurrences).",
+   text="Real app.ShutterApp replicas execute identical generated histories (random walks incl. walks targeted at vote ties / validator churn, dedup-BFS over a 19-symbol alphabet); every response (Log/Info excluded) and the canonical state must be byte-identical per call. Holds on the histories executed; map-order dependence is detected probabilistically (2^-(R-1) miss per occurrence, thousands of occurrences). Replicas also differ in mempool traffic (none / reordered CheckTx plus mempool-only transactions); CheckTx responses are compared between the two replicas with identical traffic.",
    note=TB_APP, ref="§3 C09"),
  "C10": dict(cat="exploration", tech="panic guard + process journal around hostile CheckTx/DeliverTx; twin-run (hyperproperty) comparison of observable outputs with/without an injected refused transaction",
-   text="Hostile transactions (malformed envelopes, structurally invalid payloads of every message type in valid envelopes, wrong chain, replays, outsiders) are injected at many positions of generated histories of the real app under a panic guard with code assertions; twin runs H vs H+X must agree on every observable output, including histories where the outsider later joins a keyper set. Held on the injections executed.",
+   text="Hostile transactions (malformed envelopes, structurally invalid payloads of every message type in valid envelopes, wrong chain, replays, outsiders) are injected at many positions of generated histories of the real app under a panic guard with code assertions; twin runs H vs H+X must agree on every observable output, including histories where the outsider later joins a keyper set. Held on the injections executed. Hostile classes include another transaction's signature bytes in front of a different payload (donor earlier or later in the history).",
    note=TB_APP, ref="§3 C10"),
  "C11": dict(cat="exploration", tech="online trace monitor (independent governance tally) over the real app's transaction/response log",
    text="An independent monitor re-derives vote tallies from the transaction log and asserts I1-I6 (threshold of distinct current members for the identical config, one vote per round, (sender,nonce) at most once, eon numbers fresh and increasing, restarts only for the newest eon after threshold failure votes, config start only after threshold block-seen reports) after every DeliverTx/EndBlock of generated histories. Only-if directions only.",
@@ -47,16 +47,16 @@ CHECKS = {
    text="The real router (setupRouter: OpenAPI validator, ConfigMiddleware, generated chi handlers, real handlers on pgmem) is driven with methods x path spellings derived from every OpenAPI template (parameter substitution, slashes, dot segments, percent-encoding, case, ;params, queries, prefixes) x bodies, each 3 times, in write-enabled and read-only configuration, plus a concurrent pass: in read-only mode nothing may ever arrive on the trigger/shutdown channels, read-only operations must answer from their handlers, equal requests get equal status codes; in write-enabled mode the write operations must reach their handlers (non-vacuity).",
    note="Go toolchain; net/http/httptest; pgmem; kprapi verif hooks (VerifRouter, VerifTriggerChan, VerifShutdownChan)", ref="§3 C18"),
  "C19": dict(cat="exploration", tech="reference selection + pointer model compared per operation with two real gnosis.Keyper objects on identical in-memory databases; byte-equality between keypers",
-   text="Two real Gnosis keypers with different identities and identical synced rows run histories of slot triggers (real triggerDecryption), keys messages received through the real DecryptionKeysHandler and sent through the real MessagingMiddleware, restarts and age increments over generated queues/pointer states; every requested identity list must equal the reference selection (slot identity first, queue order from the pointer, cumulative gas, at least one), both keypers must request byte-identical lists, and the pointer row must follow the reference model (p+k-1 with age 0; queue length when outdated/unknown).",
+   text="Two real Gnosis keypers with different identities and identical synced rows run histories of slot triggers (real triggerDecryption), keys messages received through the real DecryptionKeysHandler and sent through the real MessagingMiddleware, restarts and age increments over generated queues/pointer states; every requested identity list must equal the reference selection (slot identity first, queue order from the pointer, cumulative gas, at least one), both keypers must request byte-identical lists, and the pointer row must follow the reference model (p+k-1 with age 0; queue length when outdated/unknown). The self-produced keys path is driven for real: other keypers' shares store slot signatures, a keys message without extra goes through the middleware and is sent (pointer moves) iff a threshold of signatures for the current trigger is stored, otherwise dropped (pointer untouched).",
    note="Go toolchain; pgmem; gossipnet Gnosis node; refimpl.GnosisSelect / refimpl.Pointer; gnosis verif hooks", ref="§3 C19"),
  "C15": dict(cat="fault_enumeration", tech="OnCommit invariant monitor (event table == canonical admissible events whenever the recorded position is canonical) on pgmem, over generated block trees on ethfake, with enumerated RPC/database fault placements from a census run",
-   text="The three real syncers (registry, multi-event, sequencer) sync generated block trees and head sequences (gaps, repeats, steps back, fork switches up to depth 10 incl. first new heads below synced+1, re-registration on the other fork, inadmissible events, a >10,000-block jump) through the generated bindings; the oracle runs at every commit and after every Sync; random fault placements plus systematic sweeps (every k-th RPC call / database round trip of a census run: error, crash before, crash after commit followed by a fresh syncer object).",
+   text="The three real syncers (registry, multi-event, sequencer) sync generated block trees and head sequences (gaps, repeats, steps back, fork switches up to depth 10 incl. first new heads below synced+1, re-registration on the other fork, inadmissible events, a >10,000-block jump) through the generated bindings; the oracle runs at every commit and after every Sync; random fault placements plus systematic sweeps (every k-th RPC call / database round trip of a census run: error, crash before, crash after commit followed by a fresh syncer object). Scripted gap-reorg scenarios (fork first seen at the synced height, next head two or more blocks further) are swept with every RPC and database fault placement.",
    note="Go toolchain; pgmem (committed => durable; OnCommit under the engine lock); ethfake (chain fixed during one Sync call); admissibility recomputed by the harness", ref="§3 C15"),
  "C16": dict(cat="exploration", tech="metamorphic partition comparison + reference fired-set oracle over the real MultiEventSyncer on ethfake/pgmem",
-   text="Generated chains with trigger registrations, expiries and matching/non-matching logs at every relative offset are synced under 6 partitions of the head sequence (block by block, one jump, random jumps, range limits 1..7, detour over an abandoned fork), each on its own database; every partition's fired set must equal the reference set computed from the chain alone, each recorded firing log must be a matching canonical log inside (registration block, expiry], and no trigger fires twice.",
+   text="Generated chains with trigger registrations, expiries and matching/non-matching logs at every relative offset are synced under 6 partitions of the head sequence (block by block, one jump, random jumps, range limits 1..7, detour over an abandoned fork), each on its own database; every partition's fired set must equal the reference set computed from the chain alone, each recorded firing log must be a matching canonical log inside (registration block, expiry], and no trigger fires twice. Two partitions run under injected RPC failures (every call fails with probability 1/5; Sync retried with the same head).",
    note="Go toolchain; pgmem; ethfake; the reference in checks/c16 (chain-only computation)", ref="§3 C16"),
  "C02": dict(cat="exploration", tech="trace monitor on the real keyper's trigger channel judged against database snapshots; generated block/registration/eon-state histories; shares messages of the real KeyShareHandler + middleware matched against observed triggers",
-   text="A real shutterservice.Keyper runs processNewBlock over histories of blocks (increasing/equal/decreasing timestamps) with three keyper sets in generated DKG/membership/activation states, identities with release times at T-1/T/T+1, event-trigger rows fired/not fired/decrypted, decrypted flags set through the real queries and restarts; every trigger is judged identity by identity (strictly later timestamp, activation reached, fired no later than expiry, member, newest eon succeeded, not decrypted, sorted and distinct, one set per trigger), and every shares message sent must repeat an observed trigger.",
+   text="A real shutterservice.Keyper runs processNewBlock over histories of blocks (increasing/equal/decreasing timestamps) with three keyper sets in generated DKG/membership/activation states, identities with release times at T-1/T/T+1, event-trigger rows fired/not fired/decrypted, decrypted flags set through the real queries and restarts; every trigger is judged identity by identity (strictly later timestamp, activation reached, fired no later than expiry, member, newest eon succeeded, not decrypted, sorted and distinct, one set per trigger), and every shares message sent must repeat an observed trigger. Key generations restart, fail and complete between blocks of a history, and a third of the triggers reach the real KeyShareHandler only after the next state change (asynchronous trigger channel): shares may only be contributed, with the right share values, for a set whose latest key generation has succeeded at that moment.",
    note="Go toolchain; pgmem; ethfake; gossipnet Service node; shutterservice verif hooks (VerifNewKeyper, VerifProcessNewBlock)", ref="§3 C02"),
  "C03": dict(cat="exploration", tech="virtual gossip network with a schedule enumerator/sampler over real nodes (real validators, handlers, middleware, key share handler on pgmem); oracle at quiescence and at every delivery",
    text="n real nodes of one flavour (core, Gnosis, Shutter-service) exchange the bytes their code produces; for n=3,t=2 every triggered subset and every causally feasible per-node order of {own trigger, arrival of each shares message (kept or lost, <= n-t lost)} x keys-message placement is executed, plus sampled schedules for n<=5 with duplicates and two identities: every honest message must be accepted by honest peers (and Gnosis keys messages by the access node), every stored key must be the correct one, and whenever a keyper derived the key every node must store it at quiescence. Two liveness gaps under message loss are recorded as known findings.",
